@@ -549,6 +549,7 @@ class FusionART(BaseART):
         check_is_fitted(self)
         self.validate_data(X)
         self.check_dimensions(X)
+        skip_channels = [self.n + k if k < 0 else k for k in skip_channels]
 
         y = np.zeros((X.shape[0],), dtype=int)
         for i, x in enumerate(X):
